@@ -24,7 +24,14 @@ type Solver struct {
 	queries int64
 	nanos   int64
 	dead    bool
+	// mirror: a second solver of another kind that receives the same declarations,
+	// definitions, assertions and push/pop commands; it is asked only to re-decide the
+	// deciding (assertion) queries the primary answered with unsat (cross-solver check)
+	mirror *Solver
 }
+
+var crossAsked, crossAgree, crossUnknown, crossDisagree int64
+var crossNanos int64
 
 var solverQueries, solverNanos int64
 
@@ -68,6 +75,13 @@ func NewSolver(kind string, timeout time.Duration, logPath string) (*Solver, err
 }
 
 func (s *Solver) send(line string) {
+	if s.mirror != nil && !s.mirror.dead {
+		s.mirror.sendRaw(line)
+	}
+	s.sendRaw(line)
+}
+
+func (s *Solver) sendRaw(line string) {
 	if s.logf != nil {
 		fmt.Fprintln(s.logf, line)
 	}
@@ -77,6 +91,9 @@ func (s *Solver) send(line string) {
 }
 
 func (s *Solver) Close() {
+	if s.mirror != nil {
+		s.mirror.Close()
+	}
 	if s.cmd != nil && s.cmd.Process != nil {
 		s.in.Close()
 		s.cmd.Process.Kill()
@@ -136,7 +153,7 @@ func (s *Solver) Check() string {
 		return "unknown:solver-dead"
 	}
 	t0 := time.Now()
-	s.send("(check-sat)")
+	s.sendRaw("(check-sat)")
 	r, err := s.readSexp()
 	d := time.Since(t0)
 	atomic.AddInt64(&solverQueries, 1)
@@ -170,7 +187,7 @@ func (s *Solver) GetValues(names []string) (map[string]string, error) {
 		if j > len(names) {
 			j = len(names)
 		}
-		s.send("(get-value (" + strings.Join(names[i:j], " ") + "))")
+		s.sendRaw("(get-value (" + strings.Join(names[i:j], " ") + "))")
 		r, err := s.readSexp()
 		if err != nil {
 			return res, err
@@ -194,7 +211,7 @@ func (s *Solver) Sync() string {
 	if s.dead {
 		return "solver-dead"
 	}
-	s.send(`(echo "sync!")`)
+	s.sendRaw(`(echo "sync!")`)
 	var errs []string
 	for {
 		r, err := s.readSexp()
@@ -358,4 +375,27 @@ func decodeValue(raw string, sort Sort) (interface{}, bool) {
 		return uint64(i), err == nil
 	}
 	return nil, false
+}
+
+// CrossCheck re-asks the mirror solver the query the primary just answered with unsat
+// (same assertion stack). Result: "agree", "disagree" or "unknown:<why>".
+func (s *Solver) CrossCheck() string {
+	m := s.mirror
+	if m == nil {
+		return ""
+	}
+	atomic.AddInt64(&crossAsked, 1)
+	t0 := time.Now()
+	r := m.Check()
+	atomic.AddInt64(&crossNanos, int64(time.Since(t0)))
+	switch {
+	case r == "unsat":
+		atomic.AddInt64(&crossAgree, 1)
+		return "agree"
+	case r == "sat":
+		atomic.AddInt64(&crossDisagree, 1)
+		return "disagree"
+	}
+	atomic.AddInt64(&crossUnknown, 1)
+	return r
 }
